@@ -21,7 +21,7 @@ type TimerHandle struct{ t *vtimer }
 // Now returns the virtual time offset in nanoseconds.
 func Now() int64 {
 	if E == nil {
-		return 0
+		return offlineNow
 	}
 	return E.now
 }
@@ -132,3 +132,8 @@ func DrainNB[T any](ch chan T) {
 	cs := e.chanOf(chanPtrS(so), cap(ch))
 	cs.buf = nil
 }
+
+var offlineNow int64
+
+// SetOfflineNow sets the virtual time seen outside of executions (engine H).
+func SetOfflineNow(ns int64) { offlineNow = ns }
